@@ -518,6 +518,11 @@ func migrateRuleSet(lang i18n.Language, r RuleSet, validDests map[uuids.UUID]boo
 	var uiType UINodeType
 	uiConfig := make(NodeUIConfig)
 
+	// a node needs at least one exit, and exits come from rules
+	if len(r.Rules) == 0 {
+		return nil, "", nil, errors.New("ruleset must have at least one rule")
+	}
+
 	cases, categories, defaultCategory, timeoutCategory, exits, err := migrateRules(lang, r, validDests, localization, uiConfig)
 	if err != nil {
 		return nil, "", nil, err
@@ -556,6 +561,10 @@ func migrateRuleSet(lang i18n.Language, r RuleSet, validDests map[uuids.UUID]boo
 		uiType = UINodeTypeSplitBySubflow
 
 	case "webhook":
+		if config.Webhook == "" {
+			return nil, "", nil, errors.New("webhook ruleset config must have a webhook URL")
+		}
+
 		migratedURL, _ := expressions.MigrateTemplate(config.Webhook, &expressions.MigrateOptions{URLEncode: true})
 		headers := make(map[string]string, len(config.WebhookHeaders))
 		body := ""
@@ -586,6 +595,10 @@ func migrateRuleSet(lang i18n.Language, r RuleSet, validDests map[uuids.UUID]boo
 		uiType = UINodeTypeSplitByWebhook
 
 	case "resthook":
+		if config.Resthook == "" {
+			return nil, "", nil, errors.New("resthook ruleset config must have a resthook")
+		}
+
 		newActions = []migratedAction{
 			newCallResthookAction(uuids.NewV4(), config.Resthook, resultName),
 		}
